@@ -13,7 +13,7 @@ COMPLETE = 'reassm.valid == reassm.total_valid'
 def check(chk, thorough=False):
     tree = chk.tree
     chk.run('C06.a', 'R-FLOW', 'the reassembly table is keyed by the first three identity components (source, creation time, sequence)', lambda ob: (c06a(tree, ob), c10b(tree, ob)), floor=5)
-    chk.run('C06.b', 'R-ORDER', 're-injection and table deletion happen only once coverage equals [0,total); coverage only grows by the spliced range', lambda ob: c06b(tree, ob), floor=5)
+    chk.run('C06.b', 'R-ORDER', 're-injection and table deletion happen only once coverage equals [0,total); coverage only grows by the spliced range', lambda ob: c06b(tree, ob), floor=4)
     chk.run('C06.c', 'R-FLOW', 'buffer splice and coverage interval use the same bounds: the fragment own offset and offset + len(data)', lambda ob: c06c(tree, ob), floor=3)
     chk.run('C06.d', 'R-PAIR', 'one re-injection site; the fragment itself is withdrawn from delivery on every path; the synthesized bundle goes through the normal receive path', lambda ob: c06d(tree, ob), floor=3)
     chk.run('C06.e', 'R-GUARD', 'first_frag only from offset 0; the synthesized bundle copies its primary and blocks, clears the fragment flag and replaces only the payload data', lambda ob: c06e(tree, ob), floor=5)
@@ -179,7 +179,7 @@ def c06e(tree, ob):
     sets = [x for x in calls_in(fv.func) if isinstance(x.func, ast.Attribute) and x.func.attr == 'setfieldval' and x.args and const_str(x.args[0]) == 'btsd'
             and fv.has(x, COMPLETE, True)]
     s = one(sets, 'payload replacement', ob)
-    blk = fv.value_at(s.func.value, s)
+    blk = fv.value_at(s.func.value, s, keep=('rctr',))
     if src(s.args[1]) != 'reassm.data' or (pm('rctr.block_num(Bundle.BLOCK_NUM_PAYLOAD)', blk) is None and pm('rctr.block_num(1)', blk) is None):
         ob.violate(FRAG, Q, src(s), 'the payload block of the synthesized bundle does not get the accumulated buffer', s)
     else:
